@@ -947,6 +947,12 @@ class Messenger(Connection):
             if any_fail or (netname_absent and self._config.require_host_authn) or (authn_nodeid is None and self._config.require_node_authn):
                 raise TerminateError(messages.SessionTerm.Reason.CONTACT_FAILURE)
 
+        if self._sessinit_peer.segment_mru == 0:
+            # no segment with data could ever be sent (RFC 9174 section 4.7:
+            # an unacceptable MRU ends the session with contact failure)
+            self._logger.error('Peer segment MRU of zero is not usable')
+            raise TerminateError(messages.SessionTerm.Reason.CONTACT_FAILURE)
+
         self._keepalive_time = min(self._sessinit_this.keepalive,
                                    self._sessinit_peer.keepalive)
         self._logger.debug('KEEPALIVE time %d', self._keepalive_time)
